@@ -128,6 +128,9 @@ func c07body(p c07plan) func() {
 					pendingLate = append(pendingLate, res)
 					continue
 				}
+				if p.reuseCtx == "first-given-up" && answered[id] == 1 {
+					continue // the first request is never answered; the application gives it up and asks again
+				}
 				switch p.respond {
 				case "once":
 					sc.send(res)
@@ -213,13 +216,18 @@ func c07body(p c07plan) func() {
 				}
 				if p.seqReuse {
 					// first request: wait for its answer, then ask again at once with the same id
-					c0 := vrt.RecvCase((<-chan stanza.IQ)(ch))
-					c1 := vrt.RecvCase(ctx.Done())
-					if vrt.Select(false, c0, c1) == 0 && c0.Ok {
-						res.first = c0.Val.Id
+					if p.reuseCtx == "first-given-up" {
+						// ... or do not wait: the request is given up (cancelled just below) and made again at once
+						res.first = id
+					} else {
+						c0 := vrt.RecvCase((<-chan stanza.IQ)(ch))
+						c1 := vrt.RecvCase(ctx.Done())
+						if vrt.Select(false, c0, c1) == 0 && c0.Ok {
+							res.first = c0.Val.Id
+						}
 					}
 					switch p.reuseCtx {
-					case "first-cancelled":
+					case "first-cancelled", "first-given-up":
 						cancel()
 						ctx, cancel = vrt.WithTimeout(vrt.Background(), 60*time.Second)
 					case "first-expires":
@@ -482,6 +490,7 @@ func TestVerifC07(t *testing.T) {
 		plans = append(plans, c07plan{comp: comp, reqs: 1, behave: []string{"recv"}, respond: "once", seqReuse: true})
 		plans = append(plans, c07plan{comp: comp, reqs: 1, behave: []string{"recv"}, respond: "once", seqReuse: true, reuseCtx: "first-cancelled"})
 		plans = append(plans, c07plan{comp: comp, reqs: 1, behave: []string{"recv"}, respond: "once", seqReuse: true, reuseCtx: "first-expires"})
+		plans = append(plans, c07plan{comp: comp, reqs: 1, behave: []string{"recv"}, respond: "once", seqReuse: true, reuseCtx: "first-given-up"})
 		for _, respond := range []string{"twice", "foreign-then-once"} {
 			plans = append(plans, c07plan{comp: comp, reqs: 1, behave: []string{"recv"}, respond: respond, handlerAsks: true})
 		}
